@@ -2,6 +2,7 @@ import Cppcms.C02.SafetyFcgi
 import Cppcms.C02.SafetyHttp
 import Cppcms.C02.Pool
 import Cppcms.C02.Actions
+import Cppcms.C02.Closing
 /-!
 # C02 — property theorems
 
@@ -169,6 +170,20 @@ record reader; HTTP: read-ahead buffer, then the socket) -/
 theorem readers_progress : Progress sockRead ∧ (∀ {σ : Type} (R : RecReader σ), Progress (fcgiReadSome R)) ∧
     Progress httpReadSome :=
   ⟨progress_scgi, fun R => progress_fcgi R, progress_http⟩
+
+/-- connection level: on every connection of every front-end, for every byte stream and segmentation, only the
+*last* outcome can be anything else than an answered request or a FastCGI management reply — after an error
+status, the embedded server's own 400 or a dropped request the connection is not read any more (no further
+request is decoded from it; `keep_alive` only continues after the application answered). -/
+theorem connection_closes_after_error (lim : Limits) :
+    (∀ segs, ClosesAfterError (scgiConn lim segs)) ∧
+    (∀ conc segs, ClosesAfterError (fcgiRun lim conc segs)) ∧
+    (∀ cfg hints segs, ClosesAfterError (httpRun lim cfg hints segs)) :=
+  ⟨scgi_closes lim, fun conc segs => fcgi_closes bufReader lim conc _ _, fun cfg hints segs => http_closes lim cfg _ _ _⟩
+
+/-- non-vacuity of `ClosesAfterError`: it does reject a connection that goes on after an error -/
+example : ¬ ClosesAfterError [.raw400, .raw400] := by
+  intro h; have := h .raw400 (by simp); simp [goesOn] at this
 
 /-- non-vacuity of the hypotheses: the default limits, the socket reader, a run that does not halt -/
 example : LimitsOk {} ∧ Progress sockRead ∧
